@@ -16,6 +16,8 @@ pub struct Block {
     pub dom: Arc<Vec<Val>>,
     /// Some((fi, fj, values of fi, values of fj)) = cross product of two fields' boundary values
     pub pair: Option<(usize, usize, Arc<Vec<Val>>, Arc<Vec<Val>>)>,
+    /// Some(f): the pair indexes the element fields of list/array field f (first element)
+    pub within: Option<usize>,
 }
 
 pub struct Gen {
@@ -60,6 +62,7 @@ impl Gen {
                     start: total,
                     dom: Arc::new(vec![Val::Z]),
                     pair: None,
+                    within: None,
                 });
                 total += 1;
                 for (fi, f) in k.fields.iter().enumerate() {
@@ -73,6 +76,7 @@ impl Gen {
                             start: total,
                             dom: d.clone(),
                             pair: None,
+                    within: None,
                         });
                         total += d.len() as u64;
                     }
@@ -91,6 +95,7 @@ impl Gen {
                                     start: total,
                                     dom: d.clone(),
                                     pair: None,
+                    within: None,
                                 });
                                 total += d.len() as u64;
                                 // the same sweep on the LAST element of a three-element list
@@ -101,6 +106,7 @@ impl Gen {
                                     start: total,
                                     dom: d.clone(),
                                     pair: None,
+                    within: None,
                                 });
                                 total += d.len() as u64;
                             }
@@ -120,6 +126,7 @@ impl Gen {
                                         start: total,
                                         dom: d.clone(),
                                         pair: None,
+                    within: None,
                                     });
                                     total += d.len() as u64;
                                 }
@@ -136,14 +143,15 @@ impl Gen {
                     if pv[i].is_empty() {
                         continue;
                     }
+                    #[allow(unused_assignments, unused_variables)]
                     let mut seen_next = false;
                     for j in (i + 1)..k.fields.len() {
                         if pv[j].is_empty() {
                             continue;
                         }
-                        if depth == Depth::Light && seen_next {
-                            break;
-                        }
+                        // (all pairs in both depths: the light depth used to stop at the next
+                        // neighbour; the whole cross product is only ~3x more cases)
+                        let _ = depth;
                         seen_next = true;
                         let n = (pv[i].len() * pv[j].len()) as u64;
                         blocks.push(Block {
@@ -153,8 +161,45 @@ impl Gen {
                             start: total,
                             dom: Arc::new(vec![]),
                             pair: Some((i, j, pv[i].clone(), pv[j].clone())),
+                            within: None,
                         });
                         total += n;
+                    }
+                }
+                // the same products between the fields of one list / array element
+                for (fi, f) in k.fields.iter().enumerate() {
+                    let elem = match &f.ty {
+                        Ty::List { elem, .. } | Ty::Array { elem, .. } => elem,
+                        _ => continue,
+                    };
+                    let cap = capped(elem);
+                    let pv: Vec<Arc<Vec<Val>>> = elem
+                        .iter()
+                        .map(|ef| {
+                            if cap && (ef.name == "H_Mass" || ef.name == "H_TRes") {
+                                Arc::new(vec![])
+                            } else {
+                                Arc::new(spec::pair_values(ef))
+                            }
+                        })
+                        .collect();
+                    for i in 0..elem.len() {
+                        for j in (i + 1)..elem.len() {
+                            if pv[i].is_empty() || pv[j].is_empty() {
+                                continue;
+                            }
+                            let n = (pv[i].len() * pv[j].len()) as u64;
+                            blocks.push(Block {
+                                kind: ki,
+                                baseline: b,
+                                target: None,
+                                start: total,
+                                dom: Arc::new(vec![]),
+                                pair: Some((i, j, pv[i].clone(), pv[j].clone())),
+                                within: Some(fi),
+                            });
+                            total += n;
+                        }
                     }
                 }
             }
@@ -181,6 +226,40 @@ impl Gen {
         let mut vals = baseline(k, b.baseline);
         let off = (i - b.start) as usize;
         let what = match b.target {
+            None if b.pair.is_some() && b.within.is_some() => {
+                let lf = b.within.unwrap();
+                let (ei, ej, di, dj) = b.pair.as_ref().unwrap();
+                let (a, c) = (off / dj.len(), off % dj.len());
+                let (elem, is_list) = match &k.fields[lf].ty {
+                    Ty::List { elem, .. } => (elem, true),
+                    Ty::Array { elem, .. } => (elem, false),
+                    _ => unreachable!(),
+                };
+                if is_list {
+                    let mut e: Vec<Val> = elem
+                        .iter()
+                        .enumerate()
+                        .map(|(j, f)| {
+                            if b.baseline == 0 {
+                                spec::b0(f)
+                            } else if capped(elem) && f.name == "H_Mass" {
+                                Val::N(77)
+                            } else if capped(elem) && f.name == "H_TRes" {
+                                Val::N(33)
+                            } else {
+                                spec::b1(f, j)
+                            }
+                        })
+                        .collect();
+                    e[*ei] = di[a].clone();
+                    e[*ej] = dj[c].clone();
+                    vals[lf] = Val::L(vec![e]);
+                } else if let Val::L(items) = &mut vals[lf] {
+                    items[0][*ei] = di[a].clone();
+                    items[0][*ej] = dj[c].clone();
+                }
+                format!("{} B{} {}[0].{}#{}x{}#{}", k.name, b.baseline, k.fields[lf].name, elem[*ei].name, a, elem[*ej].name, c)
+            },
             None if b.pair.is_some() => {
                 let (fi, fj, di, dj) = b.pair.as_ref().unwrap();
                 let (a, c) = (off / dj.len(), off % dj.len());
